@@ -27,7 +27,7 @@ from props import c20
 READY = True
 MANIFEST = dict(
     technique='Lean 4 theorem over an interleaving semantics (unbounded threads, arbitrary schedules) for programs that satisfy a decidable lock discipline; the reader / writer programs are generated from dynamic lock + access traces of the real handlers and transactions; forced schedules on the real code as correspondence and oracle',
-    text='wellLocked_snapshot: for any number of threads whose programs are WellLocked (every shared access inside a critical section on mdib_lock, all shared reads of a thread in one section) and never mutate published objects, under ANY schedule every completed read-only thread has observed exactly one published (MdibVersion, content) pair - also when it serialises the objects after releasing the lock. Generated/LockProgs.lean holds the action lists traced from GetMdib, GetMdDescription, GetMdState, GetContextStates and from metric / context / descriptor transactions; progs_wellLocked is proved by decide. Negative witnesses show that the pinned-tree shape (version read after release) and in-place mutation tear the answer in the model.',
+    text='wellLocked_snapshot: for any number of threads whose programs are WellLocked (every shared access inside a critical section on mdib_lock, all shared reads of a thread in one section) and never mutate published state objects, under ANY schedule every completed read-only thread has observed exactly one published (MdibVersion, description, states) triple - also when it serialises the state objects after releasing the lock. history_functional / snapshot_at_version: if every section that changes content also increments mdib_version (Committing), a version is never published with two contents, so the triple is THE content at the stated MdibVersion. Generated/LockProgs.lean holds the action lists traced from GetMdib, GetMdDescription, GetMdState, GetContextStates (each with and without handles) and from metric / context / descriptor transactions; progs_wellLocked (WellLocked, ReadOnly, NoMutate, Committing for every generated program) is proved by decide, generated_snapshot instantiates the theorem for any mix of them. Negative witnesses (executed by the kernel): version read after the release, in-place mutation, content write without version increment.',
     note='Full at lock granularity. Trusted: the tracer sees every access that matters (MDIB version members, the three tables incl. index access, container serialisation); GIL atomicity of single reads; published objects are not mutated in place (property C03; additionally checked here after every forced commit). Content is abstracted to an identifier per committed version.',
     ref='5 C07')
 DRIVERS = ['drv_c07']
@@ -480,6 +480,16 @@ def model_line(res):
 
 
 def run(ctx):
+    import sys
+    old_interval = sys.getswitchinterval()
+    sys.setswitchinterval(0.0002)   # hand-offs between reader and writer threads are what the run time consists of
+    try:
+        _run(ctx)
+    finally:
+        sys.setswitchinterval(old_interval)
+
+
+def _run(ctx):
     progs = ctx.notes.get('generated_programs')
     state = new_state()
     rng = ctx.subrng('c07')
